@@ -10,7 +10,7 @@ META = {
     "level": "exploration",
     "engine": "crypto",
     "technique": "TLA+ spec TamperReplica model-checked with TLC (AuthenticOnly, RejectLeavesNoTrace, HonestAccepted); every TLC behaviour replayed into two real replicas (ClientState + VmPolicy + crypto/envelope/device/idam/perspective FFIs, signing policy): honest actions on A, tampered wire commands re-encoded (VmProtocolData/postcard) and delivered to B through add_commands/commit, B's heads, facts, effects and stored commands compared before/after (spec->impl conformance)",
-    "text": "A authors Init, AddDeviceKeys, Create, Increment(s) through real actions (sealed by the policy with crypto::sign). For each command in delivery order TLC enumerates <= 2 tamper steps on the wire form over: payload (value changed and re-serialized / malformed), command kind (sibling command with the same field schema / unknown), parent id (another command B holds / unknown), author id (another registered device / unknown), command id, signature (bit flip / truncated) and the fields the property does not name (priority, parent max-cut, policy field, trailing bytes), followed by delivery of the honest copy. Decides: a copy with a modified named field is rejected and B's heads, facts, effects and stored commands are unchanged; the honest copy is accepted afterwards; B ends with A's heads and facts.",
+    "text": "A authors Init, AddDeviceKeys, Create, Increment(s) through real actions (sealed by the policy with crypto::sign). For each command in delivery order TLC enumerates <= 2 tamper steps on the wire form over: payload (value changed and re-serialized / malformed / a non-canonical encoding of the same field values), command kind (sibling command with the same field schema / unknown), parent id (another command B holds / unknown), author id (another registered device / unknown), command id, signature (bit flip / truncated) and the fields the property does not name (priority, parent max-cut, policy field, trailing bytes), followed by delivery of the honest copy. Decides: a copy with a modified named field is rejected and B's heads, facts, effects and stored commands are unchanged; the honest copy is accepted afterwards; B ends with A's heads and facts.",
     "note": "Exploration level (the tamper variants are classes, concretised with seeded bytes). Bounds: 2 (thorough 3) commands after Init/AddDeviceKeys, <= 2 tamper steps per copy, 1 (thorough 2) forged deliveries per behaviour; linear histories, memory storage. The signing policy is adapted from aranya-model's ffi-policy.md; unlike it, Init binds the envelope's author id to the identity key it carries. Unnamed fields: outcomes are recorded, not judged (observed: policy field and trailing bytes are accepted and stored; priority and max-cut changes are rejected).",
 }
 
@@ -34,7 +34,7 @@ def run(ctx):
     if not beh:
         raise verif.ToolError("TLC emitted no behaviours")
     fields = {(s["f"], s["v"]) for b in beh for s in b["steps"] if s["act"] == "tamper"}
-    if len(fields) < 16:
+    if len(fields) < 17:
         raise verif.ToolError("vacuous enumeration: only %d tamper variants" % len(fields))
     if ctx.thorough and len(beh) > 20000:
         beh = verif.sample(ctx.rng, beh, 20000)
